@@ -923,6 +923,277 @@ theorem C05_refines_pruneExpiredDeliveries (st : St) (mx : Nat) (v : List Id)
 
 end prune
 
+/-! ### a pull refines the ordered-delivery step (topologies without dead-letter policies) -/
+
+section pull
+open Mmmbbb.Ord
+
+/-- subscriptions changed only in fields the ordering obligation does not read -/
+theorem subsOk_of_map (db db' : Db) (g : Sub → Sub) (hs : db'.subs = db.subs.map g)
+    (hg : ∀ s ∈ db.subs, (g s).id = s.id ∧ (g s).live = s.live ∧ (g s).ordered = s.ordered ∧ (g s).messageTtl = s.messageTtl) :
+    subsOk db db' = true := by
+  unfold subsOk
+  rw [hs]
+  apply List.all_eq_true.mpr
+  intro s' hs'
+  obtain ⟨s, hsm, rfl⟩ := List.mem_map.mp hs'
+  obtain ⟨h1, h2, h3, h4⟩ := hg s hsm
+  cases hl : (g s).live with
+  | false => simp
+  | true =>
+    simp only [Bool.not_true, Bool.false_or, Bool.or_eq_true, List.any_eq_true, Bool.and_eq_true, beq_iff_eq]
+    left
+    exact ⟨s, hsm, ⟨⟨⟨by rw [← h2]; exact hl, h1.symm⟩, h3.symm⟩, h4.symm⟩⟩
+
+/-- a step that updates delivery rows in place and changes subscriptions only in fields the
+    obligation does not read -/
+theorem stepOk_of_maps (db : Db) (now : Time) (db' : Db) (now' : Time) (g : Delivery → Delivery) (gs : Sub → Sub)
+    (hnow : now ≤ now') (hd : db'.dels = db.dels.map g) (hs : db'.subs = db.subs.map gs)
+    (hgs : ∀ s ∈ db.subs, (gs s).id = s.id ∧ (gs s).live = s.live ∧ (gs s).ordered = s.ordered ∧ (gs s).messageTtl = s.messageTtl)
+    (hg : ∀ d ∈ db.dels, rowUpdOk db now db' d (g d) = true) :
+    stepOk true db now db' now' = true := by
+  unfold stepOk
+  simp only [Bool.and_eq_true, decide_eq_true_eq, Bool.or_eq_true]
+  refine ⟨⟨hnow, subsOk_of_map db db' gs hs hgs⟩, Or.inl ?_⟩
+  unfold growOk
+  have hlen : db.dels.length = (db.dels.map g).length := by simp
+  simp only [hd, Bool.and_eq_true]
+  rw [hlen, List.take_length, List.drop_length]
+  refine ⟨?_, rfl⟩
+  have : ∀ l : List Delivery, (∀ d ∈ l, rowUpdOk db now db' d (g d) = true) → rowsUpdOk db now db' l (l.map g) = true := by
+    intro l
+    induction l with
+    | nil => intro _; rfl
+    | cons d r ih =>
+      intro h
+      simp only [List.map_cons, rowsUpdOk, Bool.and_eq_true]
+      exact ⟨h d List.mem_cons_self, ih (fun x hx => h x (List.mem_cons_of_mem _ hx))⟩
+  exact this db.dels hg
+
+/-- a row that is handed out (lease bookkeeping), its predecessor link allowing it -/
+theorem rowUpdOk_lease (db : Db) (now : Time) (db' : Db) (hm : db'.msgs = db.msgs) (d : Delivery) (δ : Int)
+    (hjust : liveOrd db d.subId = true → keyOf db d ≠ none → 0 < d.attempts ∨ db.predDone now d = true) :
+    rowUpdOk db now db' d (leaseRow now δ d) = true := by
+  have hk : keyOf db' (leaseRow now δ d) = keyOf db d := by unfold keyOf Db.msgById leaseRow; rw [hm]
+  unfold rowUpdOk
+  rw [hk]
+  simp only [leaseRow, beq_self_eq_true, Bool.true_and, Bool.and_eq_true, Bool.or_eq_true, decide_eq_true_eq,
+    Bool.not_eq_true', Option.isNone_iff_eq_none]
+  refine ⟨⟨⟨?_, ?_⟩, ?_⟩, ?_⟩
+  · cases d.completedAt <;> simp
+  · simp
+  · trivial
+  · cases hlo : liveOrd db d.subId with
+    | false => simp
+    | true =>
+      cases hkk : keyOf db d with
+      | none => simp
+      | some k =>
+        have := hjust hlo (by rw [hkk]; simp)
+        rcases this with h | h
+        · simp [h]
+        · simp [h]
+
+/-- on a subscription without a dead-letter policy the loop of a pull changes no table: it only
+    collects (a sub-list of) the candidates to lease -/
+theorem pullLoop_noDL (s : Sub) (now : Time) (maxBytes : Nat) (strict : Bool) (obs : PullObs)
+    (hnodl : ∀ d, s.dlTarget d = none) :
+    ∀ (cands : List Delivery) (i : Nat) (acc acc' : PullAcc), pullLoop s now maxBytes strict obs i cands acc = .ok acc' →
+      acc'.db = acc.db ∧ ∀ x ∈ acc'.delivered, x ∈ acc.delivered ∨ x.1 ∈ cands := by
+  intro cands
+  induction cands with
+  | nil =>
+    intro i acc acc' h
+    unfold pullLoop at h
+    injection h with h; subst h
+    exact ⟨rfl, fun x hx => Or.inl hx⟩
+  | cons d r ih =>
+    intro i acc acc' h
+    unfold pullLoop at h
+    split at h
+    · cases h
+    · rename_i m hm
+      split at h
+      · obtain ⟨h1, h2⟩ := ih _ _ _ h
+        exact ⟨h1, fun x hx => (h2 x hx).imp id (List.mem_cons_of_mem _)⟩
+      · rw [hnodl d] at h
+        simp only at h
+        split at h
+        · cases h
+        · rename_i δ hδ
+          obtain ⟨h1, h2⟩ := ih _ _ _ h
+          refine ⟨h1, ?_⟩
+          intro x hx
+          rcases h2 x hx with h3 | h3
+          · simp only [List.mem_append, List.mem_singleton] at h3
+            rcases h3 with h3 | h3
+            · exact Or.inl h3
+            · right; rw [h3]; exact List.mem_cons_self
+          · exact Or.inr (List.mem_cons_of_mem _ h3)
+
+theorem lookupAll_mem {α} (f : Id → Option α) : ∀ (ids : List Id) (l : List α), lookupAll f ids = some l →
+    ∀ c ∈ l, ∃ i, f i = some c := by
+  intro ids
+  induction ids with
+  | nil => intro l h c hc; unfold lookupAll at h; injection h with h; subst h; cases hc
+  | cons i r ih =>
+    intro l h c hc
+    unfold lookupAll at h
+    split at h
+    · rename_i a rest ha hrest
+      injection h with h; subst h
+      rcases List.mem_cons.mp hc with rfl | hc'
+      · exact ⟨i, ha⟩
+      · exact ih rest hrest c hc'
+    · cases h
+
+/-- what a successful pull is: either nothing was deliverable (the subscription's expiry is refreshed
+    at the end of the wait) or the candidates — rows of the table, eligible — went through the loop and
+    the collected ones are leased -/
+theorem pull_ok_shape {db : Db} {now : Time} {sn : String} {mx mb : Nat} {strict : Bool} {wait : Int} {obs : PullObs}
+    {o : TxOut PullRes} {now' : Time} (h : pull db now sn mx mb strict wait obs = .ok (o, now')) :
+    ∃ s, db.liveSubByName sn = some s ∧
+      ((now' = now + wait ∧ o.db = refreshExpiry (refreshExpiry db s now) s (now + wait)) ∨
+       (now' = now ∧ ∃ cands acc,
+          (∀ c ∈ cands, c ∈ db.dels ∧ (refreshExpiry db s now).eligible s now c = true) ∧
+          pullLoop s now mb strict obs 0 cands
+            { db := refreshExpiry (refreshExpiry db s now) s now, bytes := 0, delivered := [], numDL := 0, wakes := [] } = .ok acc ∧
+          o.db = { acc.db with dels := applyLeases now acc.delivered acc.db.dels })) := by
+  unfold pull at h
+  split at h
+  · cases h
+  · rename_i s hs
+    refine ⟨s, hs, ?_⟩
+    simp only at h
+    split at h
+    · cases h
+    · rename_i cands hc
+      split at h
+      · cases h
+      · rename_i hok
+        split at h
+        · injection h with h
+          injection h with h1 h2
+          left
+          exact ⟨h2.symm, by rw [← h1]⟩
+        · right
+          split at h
+          · cases h
+          · rename_i o' ho
+            injection h with h
+            injection h with h1 h2
+            subst h1
+            refine ⟨h2.symm, cands, ?_⟩
+            unfold pullDeliver at ho
+            split at ho
+            · cases ho
+            · rename_i acc hacc
+              injection ho with ho
+              refine ⟨acc, ?_, hacc, by rw [← ho]⟩
+              intro c hcm
+              have hok' : candsOk ((refreshExpiry db s now).eligible s now)
+                  ((refreshExpiry db s now).dels.filter ((refreshExpiry db s now).eligible s now)) cands mx = true := by
+                simpa using hok
+              unfold candsOk at hok'
+              simp only [Bool.and_eq_true] at hok'
+              have hel := List.all_eq_true.mp hok'.1.1.2 c hcm
+              obtain ⟨i, hi⟩ := lookupAll_mem _ _ _ hc c hcm
+              have hm : c ∈ (refreshExpiry db s now).dels := by
+                unfold Db.delById at hi
+                exact List.mem_of_find?_eq_some hi
+              exact ⟨hm, hel⟩
+
+theorem refreshExpiry_subs (db : Db) (s : Sub) (t : Time) :
+    (refreshExpiry db s t).subs = db.subs.map (fun x => if (x.id == s.id) = true then { x with expiresAt := t + s.ttl } else x) := rfl
+
+theorem refreshGs (s : Sub) (t : Time) (x : Sub) :
+    (if (x.id == s.id) = true then { x with expiresAt := t + s.ttl } else x).id = x.id ∧
+    (if (x.id == s.id) = true then { x with expiresAt := t + s.ttl } else x).live = x.live ∧
+    (if (x.id == s.id) = true then { x with expiresAt := t + s.ttl } else x).ordered = x.ordered ∧
+    (if (x.id == s.id) = true then { x with expiresAt := t + s.ttl } else x).messageTtl = x.messageTtl := by
+  by_cases h : (x.id == s.id) = true
+  · rw [if_pos h]; exact ⟨rfl, rfl, rfl, rfl⟩
+  · rw [if_neg h]; exact ⟨rfl, rfl, rfl, rfl⟩
+
+theorem liveSubByName_mem {db : Db} {n : String} {s : Sub} (h : db.liveSubByName n = some s) : s ∈ db.subs ∧ s.live = true := by
+  unfold Db.liveSubByName at h
+  have := List.find?_some h
+  simp only [Bool.and_eq_true] at this
+  exact ⟨List.mem_of_find?_eq_some h, this.2⟩
+
+/-- **a pull on a topology without dead-letter policies refines the ordered-delivery step**: the
+    candidates the model accepts are eligible rows of the table (on an ordered subscription: their
+    predecessor is done), the loop leases a sub-list of them, nothing else changes but the
+    subscription's expiry; an empty pull only waits and refreshes the expiry.  (Live subscription
+    ids and delivery ids unique.) -/
+theorem C05_refines_pull_no_dl (st : St) (sn : String) (mx mb : Nat) (strict : Bool) (wait : Int) (obs : PullObs)
+    (hwait : 0 ≤ wait)
+    (hnodl : ∀ s ∈ st.db.subs, ∀ d, s.dlTarget d = none)
+    (huniqS : ∀ a ∈ st.db.subs, ∀ b ∈ st.db.subs, a.live = true → b.live = true → a.id = b.id → a = b)
+    (huniqD : (st.db.dels.map (·.id)).Nodup) :
+    Ord.stepOk true st.db st.now (step st (.pull sn mx mb strict wait obs)).1.db (step st (.pull sn mx mb strict wait obs)).1.now = true := by
+  simp only [step]
+  cases hp : pull st.db st.now sn mx mb strict wait obs with
+  | error e => exact Ord.stepOk_of_same st.db st.now _ st.now (Int.le_refl _) rfl rfl rfl
+  | ok r =>
+    obtain ⟨o, now'⟩ := r
+    simp only
+    obtain ⟨s, hs, hcase⟩ := pull_ok_shape hp
+    obtain ⟨hsm, hslive⟩ := liveSubByName_mem hs
+    rcases hcase with ⟨hn, hdb⟩ | ⟨hn, cands, acc, hc, hloop, hdb⟩
+    · -- nothing deliverable
+      rw [hn, hdb]
+      refine stepOk_of_maps st.db st.now _ _ id
+        (fun x => (fun y => if (y.id == s.id) = true then { y with expiresAt := st.now + wait + s.ttl } else y)
+          ((fun y => if (y.id == s.id) = true then { y with expiresAt := st.now + s.ttl } else y) x))
+        (by unfold Time at *; omega) (by simp [refreshExpiry]) ?_ ?_ ?_
+      · simp only [refreshExpiry, updateWhere, List.map_map]; rfl
+      · intro x _
+        obtain ⟨a1, a2, a3, a4⟩ := refreshGs s st.now x
+        obtain ⟨b1, b2, b3, b4⟩ := refreshGs s (st.now + wait) (if (x.id == s.id) = true then { x with expiresAt := st.now + s.ttl } else x)
+        exact ⟨b1.trans a1, b2.trans a2, b3.trans a3, b4.trans a4⟩
+      · intro d _
+        exact Ord.rowUpdOk_refl st.db st.now _ (by simp [refreshExpiry]) d
+    · -- the delivery transaction
+      obtain ⟨haccdb, hdel⟩ := pullLoop_noDL s st.now mb strict obs (hnodl s hsm) cands 0 _ acc hloop
+      rw [hn, hdb, haccdb]
+      refine stepOk_of_maps st.db st.now _ _ (applyLease st.now acc.delivered)
+        (fun x => (fun y => if (y.id == s.id) = true then { y with expiresAt := st.now + s.ttl } else y)
+          ((fun y => if (y.id == s.id) = true then { y with expiresAt := st.now + s.ttl } else y) x))
+        (Int.le_refl _) (by simp [refreshExpiry, applyLeases]) ?_ ?_ ?_
+      · simp only [refreshExpiry, updateWhere, List.map_map]; rfl
+      · intro x _
+        obtain ⟨a1, a2, a3, a4⟩ := refreshGs s st.now x
+        obtain ⟨b1, b2, b3, b4⟩ := refreshGs s st.now (if (x.id == s.id) = true then { x with expiresAt := st.now + s.ttl } else x)
+        exact ⟨b1.trans a1, b2.trans a2, b3.trans a3, b4.trans a4⟩
+      · intro d hd
+        unfold applyLease
+        split
+        · rename_i c δ hfind
+          have hcm := List.mem_of_find?_eq_some hfind
+          have hcid : c.id = d.id := by simpa using List.find?_some hfind
+          have hcin : c ∈ cands := by
+            rcases hdel (c, δ) hcm with h0 | h0
+            · cases h0
+            · exact h0
+          obtain ⟨hcdels, hcel⟩ := hc c hcin
+          have hcd : c = d := Ord.eq_of_nodup_ids huniqD (by simpa [refreshExpiry] using hcdels) hd hcid
+          subst hcd
+          refine rowUpdOk_lease st.db st.now _ (by simp [refreshExpiry]) c δ ?_
+          intro hlo _
+          right
+          unfold Db.eligible at hcel
+          simp only [Bool.and_eq_true, Bool.or_eq_true, Bool.not_eq_true', beq_iff_eq] at hcel
+          obtain ⟨s', hs', hid', hl', ho'⟩ := (Ord.liveOrd_iff st.db c.subId).mp hlo
+          have : s' = s := huniqS s' hs' s hsm hl' hslive (hid'.trans hcel.1.1.1)
+          subst this
+          rcases hcel.2 with h1 | h1
+          · rw [ho'] at h1; cases h1
+          · simpa [Db.predDone, Db.delById, refreshExpiry] using h1
+        · exact Ord.rowUpdOk_refl st.db st.now _ (by simp [refreshExpiry]) d
+
+end pull
+
 /-- non-vacuity: an ordered subscription, two messages of key "k" in one request, the first is pulled
     and acknowledged, then the second is pulled — every step satisfies the obligation (and while the
     first is outstanding the model's pull is given, and accepts, only the first as candidate) -/
